@@ -209,7 +209,7 @@ def write_if_changed(path, text):
 
 
 # companion theorem files of a property (integrated ones only; Props/ may hold files still being written)
-COMPANIONS = {"C01": ["C02Fast"], "C13": ["C02Fast", "C13Wass"], "C02": ["C02Wass", "C02Fast"], "C03": ["C03Douglas", "C03Gen"], "C08": ["C08Max", "C08Stocks"], "C09": ["C09Spec"]}
+COMPANIONS = {"C01": ["C02Fast", "C01Gen"], "C13": ["C02Fast", "C13Wass", "C01Gen"], "C02": ["C02Wass", "C02Fast", "C01Gen"], "C03": ["C03Douglas", "C03Gen"], "C08": ["C08Max", "C08Stocks"], "C09": ["C09Spec"]}
 
 
 def prove(prop, modules=None):
@@ -411,8 +411,8 @@ class Ctx:
         anch = anchored_files(prop)
         self.delta_anchored = [d for d in self.delta if d[0] in anch]
         self.escalated = False
-        # opt-in (VERIF_ESCALATE=1): over three rounds of seeded changes the thorough sizes never caught a change that the quick
-        # tier missed, while they multiply the run time of a quick check on changed code by ten; the delta is always recorded
+        # opt-in (VERIF_ESCALATE=1): the three seeded changes that only the thorough sizes caught became quick-tier oracles
+        # (DESIGN.md 17.6); escalation multiplies the run time of a quick check on changed code by ten; the delta is always recorded
         if tier == "quick" and self.delta_anchored and os.environ.get("VERIF_ESCALATE") and not os.environ.get("VERIF_NO_ESCALATE"):
             self.tier = "thorough"
             self.escalated = True
